@@ -104,7 +104,7 @@ CHECKS = {
     "C18": {
         "bins": ["client_keepalive"],
         "category": "model_checking",
-        "text": "Keepalive.tla is a discrete-time model (one tick = 1/K of the keep-alive interval) of the event loop's keep-alive timer, the await_pingresp flag, a broker that answers each PINGREQ after 0..2K ticks or never, other traffic, keep-alive zero, a stalled handshake against the connection timeout, and a second connection made by the same event loop after a reported failure (the outstanding-ping flag must not survive the reconnect). TLC checks for K = 0,2,3 (v4) and 5 (v5) (thorough: more values): a PINGREQ in every interval, a silent broker reported no later than the second interval, no keep-alive failure while every reply came within the interval, no ping with keep-alive zero, timeout exactly at the configured time. TLC-generated broker schedules are replayed into the real EventLoop (both versions) over the in-memory transport under paused tokio time; the per-tick record of what the client did (PINGREQ seen by the broker, failure reported, PINGRESP delivered) is validated by TLC against KeepaliveTrace.tla with the invariants evaluated in every state.",
+        "text": "Keepalive.tla is a discrete-time model (one tick = 1/K of the keep-alive interval) of the event loop's keep-alive timer, the await_pingresp flag, a broker that answers each PINGREQ after 0..2K ticks or never, other traffic, keep-alive zero, a stalled handshake against the connection timeout, and a second connection made by the same event loop after a reported failure (the outstanding-ping flag must not survive the reconnect). TLC checks for K = 0,2,3 (v4) and 5 (v5) (thorough: more values): a PINGREQ in every interval, a silent broker reported no later than the second interval, no keep-alive failure while every reply came within the interval, no ping with keep-alive zero, timeout exactly at the configured time. TLC-generated broker schedules are replayed into the real EventLoop (both versions) over the in-memory transport under paused tokio time; the per-tick record of what the client did (PINGREQ seen by the broker, failure reported, PINGRESP delivered) is validated by TLC against KeepaliveTrace.tla with the invariants evaluated in every state. For MQTT 5 the keep-alive in force can also come from the CONNACK's Server Keep Alive (0 = off, values below the client's minimum of 5 s): the scripted broker sends it and the same model and trace validation apply with K = that value.",
         "design_ref": "DESIGN.md section 6 / C18",
         "note": "Trusted: Keepalive.tla, TLC, tokio's paused clock (virtual time, one tick = one second), the scripted broker of the harness. A reply landing exactly on a timer tick is left undecided (both outcomes accepted).",
         "technique": "TLC model checking of a discrete-time TLA+ model + spec->impl replay of TLC-generated broker schedules with TLC trace validation of the recorded ticks",
